@@ -313,21 +313,21 @@ static void dump(int kind, int full)
 
 static int cmp_bt(const void * a, const void * b, void * p)
 {
-    (void)p;
+    h_priv_check(p, 1);
     return (((const struct bte *)a)->key > ((const struct bte *)b)->key)
            - (((const struct bte *)a)->key < ((const struct bte *)b)->key);
 }
 
 static int cmp_rb(const void * a, const void * b, void * p)
 {
-    (void)p;
+    h_priv_check(p, 2);
     return (((const struct rbe *)a)->key > ((const struct rbe *)b)->key)
            - (((const struct rbe *)a)->key < ((const struct rbe *)b)->key);
 }
 
 static int cmp_key(const void * a, const void * b, void * p)
 {
-    (void)p;
+    h_priv_check(p, 3);
     return (*(const int *)a > *(const int *)b) - (*(const int *)a < *(const int *)b);
 }
 
@@ -337,7 +337,7 @@ static int nev, stop_at, cur_kind;
 
 static int visit(const void * e, cstl_bintree_visit_order_t ord, void * p)
 {
-    (void)p;
+    h_priv_check(p, 4);
     if (nev < MAXEV) {
         evs[nev].id = elem_id(cur_kind, e);
         evs[nev].ord = (int)ord;
@@ -367,7 +367,7 @@ static int ncleared;
 static void clr_bt(void * e, void * p)
 {
     struct bte * el = e;
-    (void)p;
+    h_priv_check(p, 5);
     if (ncleared < NE) {
         cleared[ncleared++] = elem_id(K_BT, e);
     }
@@ -380,7 +380,7 @@ static void clr_bt(void * e, void * p)
 static void clr_rb(void * e, void * p)
 {
     struct rbe * el = e;
-    (void)p;
+    h_priv_check(p, 6);
     if (ncleared < NE) {
         cleared[ncleared++] = elem_id(K_RB, e);
     }
@@ -440,7 +440,7 @@ static void clr_map(void * e, void * p)
 {
     const cstl_map_iterator_t * it = e;
     char b[64];
-    (void)p;
+    h_priv_check(p, 7);
     mlog_alloc();
     snprintf(b, sizeof(b), "C%ld:%ld%s", kp_id(it->key), v_id(it->val), it->_ == NULL ? "" : "!attached");
     mlog_add(b);
@@ -504,9 +504,9 @@ static void reset(void)
         kobj[i] = i / 2;
     }
     hash_mode = 0;
-    cstl_bintree_init(&bt, cmp_bt, NULL, offsetof(struct bte, n));
-    cstl_rbtree_init(&rb, cmp_rb, NULL, offsetof(struct rbe, n));
-    cstl_map_init(&map, cmp_key, NULL);
+    cstl_bintree_init(&bt, cmp_bt, H_PRIV(1), offsetof(struct bte, n));
+    cstl_rbtree_init(&rb, cmp_rb, H_PRIV(2), offsetof(struct rbe, n));
+    cstl_map_init(&map, cmp_key, H_PRIV(3));
     h_alloc_reset();
     h_alloc_arm(0);
 }
@@ -569,7 +569,7 @@ static void op_map(int argc, char ** argv)
     } else if ((!strcmp(o, "clear") || !strcmp(o, "clear0")) && argc == 2) {
         h_alloc_plan("");
         h_alloc_arm(1);
-        cstl_map_clear(&map, o[5] ? NULL : clr_map, NULL);
+        cstl_map_clear(&map, o[5] ? NULL : clr_map, H_PRIV(7));
         h_alloc_arm(0);
         mlog_alloc();
         outf("log=[%s]", mlog);
@@ -709,9 +709,9 @@ static void op(int argc, char ** argv)
         nev = 0;
         stop_at = (int)h_int(argv[3]);
         if (kind == K_BT) {
-            r = cstl_bintree_foreach(&bt, visit, NULL, d);
+            r = cstl_bintree_foreach(&bt, visit, H_PRIV(4), d);
         } else {
-            r = cstl_rbtree_foreach(&rb, visit, NULL, d);
+            r = cstl_rbtree_foreach(&rb, visit, H_PRIV(4), d);
         }
         outf("%d ", r);
         print_evs();
@@ -719,9 +719,9 @@ static void op(int argc, char ** argv)
         int i, okp = 1;
         ncleared = 0;
         if (kind == K_BT) {
-            cstl_bintree_clear(&bt, clr_bt, NULL);
+            cstl_bintree_clear(&bt, clr_bt, H_PRIV(5));
         } else {
-            cstl_rbtree_clear(&rb, clr_rb, NULL);
+            cstl_rbtree_clear(&rb, clr_rb, H_PRIV(6));
         }
         outf("[");
         for (i = 0; i < ncleared; i++) {
